@@ -8,6 +8,7 @@ import (
 func C03(run *report.Run) {
 	acc := &pairAcc{}
 	st := &c03Stats{}
+	c03StoreSuccession(run, acc)
 	c03Sequential(run, acc, st)
 	c03Schedules(run, acc)
 	c03Synctest(run)
